@@ -41,6 +41,16 @@ impl Elem for Rat {
     }
     fn show(&self) -> String { format!("{}", self) }
 }
+/// `f64` runs use integer-valued data only: `+ - *` on small integers are exact in binary
+/// floating point, so the answers are compared as integers with the integer model (division and
+/// rounding behaviour of floats are not part of these runs).
+impl Elem for f64 {
+    fn parse(s: &str) -> f64 { s.parse::<i64>().expect("integer-valued f64") as f64 }
+    fn show(&self) -> String {
+        assert!(self.fract() == 0.0 && self.abs() < 9.0e15, "f64 run left the exact integer range");
+        (*self as i64).to_string()
+    }
+}
 impl Elem for i64 {
     fn parse(s: &str) -> i64 { s.parse().expect("i64") }
     fn show(&self) -> String { self.to_string() }
@@ -119,11 +129,11 @@ fn base_form(f: &str) -> &'static str {
 }
 
 #[derive(Clone, Copy, PartialEq)]
-enum Ety { Fp, Rat, I64 }
+enum Ety { Fp, Rat, I64, F64 }
 
 impl Ety {
     fn name(self) -> &'static str {
-        match self { Ety::Fp => "fp", Ety::Rat => "rat", Ety::I64 => "i64" }
+        match self { Ety::Fp => "fp", Ety::Rat => "rat", Ety::I64 => "i64", Ety::F64 => "f64" }
     }
 }
 
@@ -140,7 +150,7 @@ fn rand_val(g: &mut Gen, e: Ety) -> String {
             let d = g.rng.range(1, 4) as i64;
             Rat::new(n as i128, d as i128).show()
         }
-        Ety::I64 => (g.rng.below(41) as i64 - 20).to_string(),
+        Ety::I64 | Ety::F64 => (g.rng.below(41) as i64 - 20).to_string(),
     }
 }
 
@@ -614,6 +624,9 @@ fn gen_matrix_elementwise_case(g: &mut Gen, e: Ety, rows: usize, cols: usize) {
             for sf in ["s", "rs"] {
                 let f = o.forms[c.g.rng.below(o.forms.len())];
                 let mut s = rand_val(c.g, c.e);
+                if op == "sdiv" && c.e == Ety::F64 {
+                    continue;
+                }
                 if op == "sdiv" && c.e == Ety::I64 && s == "0" {
                     s = "3".into();
                 }
@@ -636,6 +649,9 @@ fn gen_scalar_case(g: &mut Gen, e: Ety, lens: &[usize]) {
             for f in o.forms.iter() {
                 let sf = if c.g.rng.chance(1, 2) { "s" } else { "rs" };
                 let mut s = rand_val(c.g, c.e);
+                if op == "sdiv" && c.e == Ety::F64 {
+                    continue;
+                }
                 if op == "sdiv" && c.e == Ety::I64 && s == "0" {
                     s = "-7".into();
                 }
@@ -718,8 +734,11 @@ pub fn gen(g: &mut Gen) {
         if i64_ok && g.rng.chance(1, 3) {
             gen_elementwise_case(g, Ety::I64, lens);
         }
+        if i64_ok && g.rng.chance(1, 3) {
+            gen_elementwise_case(g, Ety::F64, lens);
+        }
         if thorough || g.rng.chance(1, 2) {
-            let e = if i64_ok { [Ety::Fp, Ety::Rat, Ety::I64][g.rng.below(3)] } else { [Ety::Fp, Ety::Rat][g.rng.below(2)] };
+            let e = if i64_ok { [Ety::Fp, Ety::Rat, Ety::I64, Ety::F64][g.rng.below(4)] } else { [Ety::Fp, Ety::Rat][g.rng.below(2)] };
             gen_elementwise_reject_case(g, e, lens);
         }
         if thorough || g.rng.chance(1, 3) {
@@ -728,6 +747,7 @@ pub fn gen(g: &mut Gen) {
         }
     }
     gen_scalar_case(g, Ety::I64, &[2, 3]);
+    gen_scalar_case(g, Ety::F64, &[3, 2]);
     gen_scalar_case(g, Ety::Rat, &[3, 2]);
     gen_scalar_case(g, Ety::Fp, &[]);
     // matrix multiplication: all M x N . N x L up to the tier's bound for Fp
@@ -745,8 +765,11 @@ pub fn gen(g: &mut Gen) {
                 if g.rng.chance(1, 20) {
                     gen_matmul_case(g, Ety::I64, m, n, l);
                 }
+                if g.rng.chance(1, 20) {
+                    gen_matmul_case(g, Ety::F64, m, n, l);
+                }
                 if g.rng.chance(1, 6) {
-                    let e = [Ety::Fp, Ety::Rat, Ety::I64][g.rng.below(3)];
+                    let e = [Ety::Fp, Ety::Rat, Ety::I64, Ety::F64][g.rng.below(4)];
                     gen_agree_case(g, e, m, n, l);
                 }
             }
@@ -759,9 +782,10 @@ pub fn gen(g: &mut Gen) {
         gen_matmul_case(g, Ety::Fp, 4, 5, 3);
         gen_matmul_case(g, Ety::Rat, 4, 5, 3);
         gen_matmul_case(g, Ety::I64, 4, 5, 3);
+        gen_matmul_case(g, Ety::F64, 4, 5, 3);
     }
     for _ in 0..(if thorough { 60 } else { 12 }) {
-        let e = [Ety::Fp, Ety::Rat, Ety::I64][g.rng.below(3)];
+        let e = [Ety::Fp, Ety::Rat, Ety::I64, Ety::F64][g.rng.below(4)];
         gen_matmul_reject_case(g, e);
     }
     // matrices: elementwise, negation, scalars
@@ -775,6 +799,9 @@ pub fn gen(g: &mut Gen) {
             if g.rng.chance(1, 6) {
                 gen_matrix_elementwise_case(g, Ety::I64, r, c);
             }
+            if g.rng.chance(1, 6) {
+                gen_matrix_elementwise_case(g, Ety::F64, r, c);
+            }
         }
     }
     // scalar products
@@ -783,6 +810,7 @@ pub fn gen(g: &mut Gen) {
         gen_dot_case(g, Ety::Rat, n);
         if n <= 3 {
             gen_dot_case(g, Ety::I64, n);
+            gen_dot_case(g, Ety::F64, n);
         }
     }
     // catalogue of operator impls found in the sources (so that a new form cannot be missed)
@@ -1450,6 +1478,7 @@ macro_rules! runner_for {
 
 runner_for!(run_fp, Fp, with_t_pair, with_t, with_t_ref, with_t_rhs, with_m_pair, with_m, same_d, any_d);
 runner_for!(run_rat, Rat, with_t_pair_lite, with_t_lite, with_t_ref_lite, with_t_rhs_lite, with_m_pair_lite, with_m_lite, same_d, any_d);
+runner_for!(run_f64, f64, with_t_pair_lite, with_t_lite, with_t_ref_lite, with_t_rhs_lite, with_m_pair_lite, with_m_lite, same_d_lite, any_d_lite);
 runner_for!(run_i64, i64, with_t_pair_lite, with_t_lite, with_t_ref_lite, with_t_rhs_lite, with_m_pair_lite, with_m_lite, same_d_lite, any_d_lite);
 
 enum Case {
@@ -1457,6 +1486,7 @@ enum Case {
     Fp(run_fp::Env),
     Rat(run_rat::Env),
     I64(run_i64::Env),
+    F64(run_f64::Env),
 }
 
 pub struct Runner {
@@ -1473,11 +1503,13 @@ impl Runner {
             ["@", "fp"] => { self.case = Case::Fp(Default::default()); "ok".into() }
             ["@", "rat"] => { self.case = Case::Rat(Default::default()); "ok".into() }
             ["@", "i64"] => { self.case = Case::I64(Default::default()); "ok".into() }
+            ["@", "f64"] => { self.case = Case::F64(Default::default()); "ok".into() }
             _ => match &mut self.case {
                 Case::None => "no-case".into(),
                 Case::Fp(e) => e.step(toks),
                 Case::Rat(e) => e.step(toks),
                 Case::I64(e) => e.step(toks),
+                Case::F64(e) => e.step(toks),
             },
         }
     }
